@@ -182,9 +182,9 @@ Definition ancestors_answer_ok (s : store) (a b : N) (res : ares) : Prop :=
   | AErr _ => exists ra rb, by_hash s a = Some ra /\ by_hash s b = Some rb /\ ~ reach s a rb
   end.
 
-Theorem ancestors_spec s a b : Valid s -> regular s a -> ancestors_answer_ok s a b (ancestors s a b).
+Theorem ancestors_spec_wf s a b : wf s -> regular s a -> ancestors_answer_ok s a b (ancestors s a b).
 Proof.
-  intros HV HR. pose proof (wf_nodup s (valid_wf s HV)) as Hnd.
+  intros Hwf0 HR. pose proof (wf_nodup s Hwf0) as Hnd.
   unfold ancestors, ancestors_gen.
   destruct (by_hash s a) as [ra|] eqn:Ea; [|cbn; left; exact Ea].
   destruct (by_hash s b) as [rb|] eqn:Eb; [|cbn; right; exact Eb].
@@ -212,10 +212,13 @@ Proof.
 Qed.
 
 (* the iff of the design: Ok exactly when b is an ancestor-or-self of a *)
-Corollary ancestors_iff s a b : Valid s -> regular s a ->
+Theorem ancestors_spec s a b : Valid s -> regular s a -> ancestors_answer_ok s a b (ancestors s a b).
+Proof. intros HV. apply ancestors_spec_wf, valid_wf, HV. Qed.
+
+Corollary ancestors_iff_wf s a b : wf s -> regular s a ->
   ((exists p, ancestors s a b = AOk p) <-> exists rb, by_hash s b = Some rb /\ reach s a rb).
 Proof.
-  intros HV HR. pose proof (ancestors_spec s a b HV HR) as H. split.
+  intros HV HR. pose proof (ancestors_spec_wf s a b HV HR) as H. split.
   - intros [p Hp]. rewrite Hp in H. cbn in H. destruct H as [(-> & _ & ra & Ea)|(_ & Hpath)].
     + exists ra. split; [exact Ea| apply reach_here; exact Ea].
     + destruct (path_reach _ _ _ _ Hpath) as (rb & Eb & Hr & _). exists rb. auto.
@@ -226,6 +229,10 @@ Proof.
     + destruct H as (ra & rb' & _ & Eb' & Hn). apply Hn. congruence.
     + exact H.
 Qed.
+
+Corollary ancestors_iff s a b : Valid s -> regular s a ->
+  ((exists p, ancestors s a b = AOk p) <-> exists rb, by_hash s b = Some rb /\ reach s a rb).
+Proof. intros HV. apply ancestors_iff_wf, valid_wf, HV. Qed.
 
 (* History: before the fix ed2f6a2 of /repo the equal-height branch returned [] without comparing the hashes
    (Query.ancestors_before_fix); that model satisfied this statement only for arguments other than two different
